@@ -7,8 +7,11 @@ import (
 	"fmt"
 	"hash/fnv"
 	"os"
+	"os/signal"
 	"path/filepath"
 	"sort"
+	"sync"
+	"syscall"
 	"time"
 )
 
@@ -44,6 +47,9 @@ type GoViolation struct {
 
 // Out collects the cases of a run and the run's report.
 type Out struct {
+	mu        sync.Mutex // guards everything below (cases may be recorded from several goroutines; SIGTERM flushes)
+	closed    bool
+	cut       bool
 	args      Args
 	f         *os.File
 	w         *bufio.Writer
@@ -66,7 +72,21 @@ func NewOut(a Args) *Out {
 	if err != nil {
 		panic(err)
 	}
-	return &Out{args: a, f: f, w: bufio.NewWriterSize(f, 1<<20), nontriv: map[uint64]struct{}{}, Hist: map[string]int{}, start: time.Now()}
+	o := &Out{args: a, f: f, w: bufio.NewWriterSize(f, 1<<20), nontriv: map[uint64]struct{}{}, Hist: map[string]int{}, start: time.Now()}
+	// bin/check sends SIGTERM when the run exceeds its time limit: write out the cases recorded
+	// so far (a run cut short is still evidence, and its property failures are still replays)
+	// and leave with status 3
+	ch := make(chan os.Signal, 1)
+	signal.Notify(ch, syscall.SIGTERM)
+	go func() {
+		<-ch
+		o.mu.Lock()
+		o.cut = true
+		o.Notes = append(o.Notes, "run cut short by SIGTERM (time limit): the cases recorded so far were written out")
+		o.closeLocked()
+		os.Exit(3)
+	}()
+	return o
 }
 
 // Case records one case: its generator kind (for histograms and known-finding
@@ -74,6 +94,8 @@ func NewOut(a Args) *Out {
 // what the implementation was observed to do.
 func (o *Out) Case(kind string, nontrivial bool, input, observed Sx) {
 	line := List(input, observed).String()
+	o.mu.Lock()
+	defer o.mu.Unlock()
 	o.w.WriteString(line)
 	o.w.WriteByte('\n')
 	o.kinds = append(o.kinds, kind)
@@ -93,21 +115,35 @@ func (o *Out) Case(kind string, nontrivial bool, input, observed Sx) {
 	}
 }
 
-func (o *Out) Count(key string)         { o.Hist[key]++ }
-func (o *Out) CountN(key string, n int) { o.Hist[key] += n }
+func (o *Out) Count(key string)         { o.mu.Lock(); o.Hist[key]++; o.mu.Unlock() }
+func (o *Out) CountN(key string, n int) { o.mu.Lock(); o.Hist[key] += n; o.mu.Unlock() }
 func (o *Out) Note(format string, a ...interface{}) {
+	o.mu.Lock()
 	o.Notes = append(o.Notes, fmt.Sprintf(format, a...))
+	o.mu.Unlock()
 }
 
 // Violation reports a property failure found on the Go side; c is written to the case
 // file too so that the replay names a concrete input.
 func (o *Out) Violation(signature, what string, input Sx) {
+	o.mu.Lock()
+	defer o.mu.Unlock()
 	if len(o.GoViol) < 50 {
 		o.GoViol = append(o.GoViol, GoViolation{Signature: signature, What: what, Case: input.String()})
 	}
 }
 
 func (o *Out) Close() {
+	o.mu.Lock()
+	defer o.mu.Unlock()
+	o.closeLocked()
+}
+
+func (o *Out) closeLocked() {
+	if o.closed {
+		return
+	}
+	o.closed = true
 	o.w.Flush()
 	o.f.Close()
 	keys := make([]string, 0, len(o.Hist))
@@ -127,6 +163,7 @@ func (o *Out) Close() {
 		"notes":               o.Notes,
 		"kinds":               o.kinds,
 		"harness_wall_s":      time.Since(o.start).Seconds(),
+		"cut_short":           o.cut,
 	}
 	b, _ := json.MarshalIndent(rep, "", " ")
 	if err := os.WriteFile(filepath.Join(o.args.OutDir, "report.json"), b, 0o644); err != nil {
